@@ -162,13 +162,13 @@ impl Property for C08 {
     vec!["inside a Nested clause only direct leaf properties of the bound object are addressed (dotted paths inside Nested are not generated: undocumented)".into()]
   }
   fn plan(tier: Tier) -> Plan {
-    Plan { workers: 16, cases_per_worker: tier.pick(150, 3000) }
+    Plan { workers: 16, cases_per_worker: tier.pick(1500, 30000) }
   }
   fn strategy(_tier: Tier) -> BoxedStrategy<Case> {
     let so = SchemaOpts { force_fast: true, analyzers: false, custom_id: false, max_text: 1, nested_depth: 3, ..SchemaOpts::default() };
     gen::schema(so)
       .prop_flat_map(|schema| {
-        let d = DocOpts { text: gen::TextOpts { max_words: 2, odd: false, vocab: 6 }, max_multi: 3, absent: 2, max_nested_objs: 3, null_items: false };
+        let d = DocOpts { text: gen::TextOpts { max_words: 2, odd: false, vocab: 6 }, max_multi: 3, absent: 2, max_nested_objs: 3, null_items: false, extremes: false };
         let docs = vec(gen::doc_body(&schema, d), 4..20);
         let filters = vec(root_filter(&schema, 3), 6);
         (Just(schema), docs, 1usize..4, filters)
